@@ -1428,9 +1428,9 @@ class UnitArray :
             self._value = np.array(v, dtype=float)
         else :
             if isarray(v) :
-                self._value = np.array(v)
+                self._value = np.array(v, dtype=object) # keeps str / UnitValue items as they are (np.array(v) turns a list holding a str into np.str_ items)
                 for i in range(len(self._value)) :
-                    if type(self._value[i]) == str :
+                    if isinstance(self._value[i], str) :
                         self._value[i] = parse_unitvalue(self._value[i])
 
                     if type(self._value[i]) == UnitValue :
